@@ -50,7 +50,8 @@ package age
 //@   loop 2 invariant#count $uwn == old($uwn) + rangeindex + 1                                                                        [C01 C04]
 //@   loop 2 invariant#nokey fileKey == nil                                                                                              [C01]
 //@   loop 2 invariant#frame unchanged(identities) && disjoint(errNoMatch.Errors, identities)                                           [C01 C04 C14]
-//@   loop 2 invariant#log forall j in 0..rangeindex+1 :: ($uwid[old($uwn)+j] == identities[j] && wraps($uwerr[old($uwn)+j], EII))      [C01]
+//@   loop 2 invariant#logid forall j in 0..rangeindex+1 :: $uwid[old($uwn)+j] == identities[j]                                          [C01]
+//@   loop 2 invariant#logerr forall j in 0..rangeindex+1 :: wraps($uwerr[old($uwn)+j], EII)                                            [C01]
 //@   loop 2 invariant#alleii (forall j in 0..rangeindex+1 :: wraps($uwerr[old($uwn)+j], EII)) ==> (fileKey == nil && len(errNoMatch.Errors) == rangeindex+1 && (forall j in 0..rangeindex+1 :: errNoMatch.Errors[j] == $uwerr[old($uwn)+j]))   [C04]
 //@   loop 2 decreases len(identities) - rangeindex
 //@   call Unwrap#0 requires len(arg1) == len(hdr.Recipients) && (forall j in 0..len(arg1) :: arg1[j] == hdr.Recipients[j])             [C01]
